@@ -1,0 +1,21 @@
+//go:build verif
+
+package jd
+
+// VerifHashCode exposes the unexported structural hash of a node so that
+// an external monitor can check that distinct values get distinct digests.
+// It only exists in builds with the `verif` tag.
+func VerifHashCode(n JsonNode, opts ...Option) [8]byte {
+	return n.hashCode(opts)
+}
+
+// VerifReadTrace, when non-nil, is told every transition of the diff
+// reader's line automaton: the state before the line, the line's header
+// byte and whether the line made the reader flush a finished hunk.
+var VerifReadTrace func(state int, header byte, flushed bool)
+
+func verifReadTransition(state int, header byte, flushed bool) {
+	if VerifReadTrace != nil {
+		VerifReadTrace(state, header, flushed)
+	}
+}
